@@ -589,6 +589,11 @@ def gen_c06(ch, prof):
     nonreq_sinks = [n for n in sinks if not required_by(n)]
     req_nodes = [n for n in order if required_by(n)]
     at = ch.rng_int('fault', 300, 3000) * MS
+    if ch.chance('fault', 1, 6):
+        # a pipeline that has been running for a while: ids are far from their initial values, so that a restarted
+        # filter which creeps up to its neighbours' ids one by one (instead of adopting them) stays silent for longer
+        # than the healing bound
+        at = ch.rng_int('fault', 9000, 16000) * MS
     plus = ch.rng_int('fault', 0, 60)
     classes = ['none', 'restart', 'graceful_restart']
     # a publisher with no connected output at all waits for one (start-up behaviour), so the silent death of the *sole*
